@@ -81,8 +81,19 @@ def files(override):
     return [fb.f]
 
 
-def build(apis_mask, ops, iam, loc, unrelated, override):
-    rules = [rule_for(m) for m in OPS_SETS[ops] + IAM_SETS[iam] + LOC_SETS[loc]]
+def build(apis_mask, ops, iam, loc, unrelated, override, order=0):
+    groups = [list(OPS_SETS[ops]), list(IAM_SETS[iam]), list(LOC_SETS[loc])]
+    if order == 0:
+        names_ = groups[0] + groups[1] + groups[2]
+    elif order == 1:
+        names_ = list(reversed(groups[0] + groups[1] + groups[2]))
+    else:   # interleaved: the rules of one mixin API are not contiguous in the YAML
+        names_ = []
+        while any(groups):
+            for g_ in groups:
+                if g_:
+                    names_.append(g_.pop(0))
+    rules = [rule_for(m) for m in names_]
     if unrelated:
         rules.append({"selector": "google.example.mx.v1.Alpha.GetThing", "get": "/v2/{name=a/*}"})
     names = [n for i, n in enumerate(("google.longrunning.Operations", "google.iam.v1.IAMPolicy",
@@ -92,16 +103,17 @@ def build(apis_mask, ops, iam, loc, unrelated, override):
     return api_mod.API.build(gen.dep_files() + files(override), package=PKG, opts=opts)
 
 
-def selection(apis_mask: int, ops: int, iam: int, loc: int, unrelated: bool, override: int) -> bool:
+def selection(apis_mask: int, ops: int, iam: int, loc: int, unrelated: bool, override: int, order: int) -> bool:
     """
     pre: 0 <= apis_mask <= 7 and (PART < 0 or apis_mask == PART)
-    pre: 0 <= ops <= 3 and 0 <= iam <= 2 and 0 <= loc <= 2 and 0 <= override <= 3
+    pre: 0 <= ops <= 3 and 0 <= iam <= 2 and 0 <= loc <= 2 and 0 <= override <= 3 and 0 <= order <= 2
     post: _
     """
     apis_mask, ops, iam, loc, override = conc(apis_mask, 0, 7), conc(ops, 0, 3), conc(iam, 0, 2), conc(loc, 0, 2), conc(override, 0, 3)
+    order = conc(order, 0, 2)
     unrelated = bool(unrelated)
     with untraced():
-        api = build(apis_mask, ops, iam, loc, unrelated, override)
+        api = build(apis_mask, ops, iam, loc, unrelated, override, order)
         got = set(api.mixin_api_methods)
         exp = set()
         if apis_mask & 1:
